@@ -200,7 +200,12 @@ void refexec_run(const struct gm_spec *spec, uint64_t prng_seed, struct ref_resu
 	global_config.prng_seed = prng_seed;
 	for(unsigned i = 0; i < spec->n_lps; i++) {
 		ref_lpctx[i].rng_ctx = &ref_rng[i];
-		random_lib_lp_init(i, &ref_rng[i]);
+		{ /* the runtime calls it from lp_init() with current_lp set: keep that precondition */
+			struct lp_ctx *save_lp = current_lp;
+			current_lp = &ref_lpctx[i];
+			random_lib_lp_init(i, &ref_rng[i]);
+			current_lp = save_lp;
+		}
 		ref_state[i] = NULL;
 		out->tau[i] = INFINITY;
 	}
